@@ -14,11 +14,8 @@ Proof.
   split; [exact A|]. split; [apply read_line_wf; exact H1|]. split; [apply read_line_wf; exact H2|exact B].
 Qed.
 
-Lemma fill_fuel_rel : forall s1 s2, srel s1 s2 -> fill_fuel s1 = fill_fuel s2.
-Proof. intros s1 s2 [_ [_ E]]. unfold fill_fuel, stream_bytes. rewrite E. reflexivity. Qed.
-
-Lemma cols_fuel_rel : forall s1 s2, srel s1 s2 -> cols_fuel s1 = cols_fuel s2.
-Proof. intros s1 s2 [_ [_ E]]. unfold cols_fuel, stream_bytes. rewrite E. reflexivity. Qed.
+Lemma read_fuel_rel : forall s1 s2, srel s1 s2 -> read_fuel s1 = read_fuel s2.
+Proof. intros s1 s2 [_ [_ E]]. unfold read_fuel, stream_bytes. rewrite E. reflexivity. Qed.
 
 Definition fill_rel (a b : fill_res) : Prop :=
   match a, b with
@@ -52,17 +49,16 @@ Section U.
     | _, _ => False
     end.
 
-  Lemma u_columns_rel : forall fuel buf line s1 s2 acc, srel s1 s2 ->
-    cols_rel (u_columns A parse_f32 fuel buf line s1 acc) (u_columns A parse_f32 fuel buf line s2 acc).
+  Lemma u_columns_rel : forall F0 fuel buf line s1 s2 acc, srel s1 s2 ->
+    cols_rel (u_columns A parse_f32 F0 fuel buf line s1 acc) (u_columns A parse_f32 F0 fuel buf line s2 acc).
   Proof.
-    induction fuel as [|fuel IH]; intros buf line s1 s2 acc R; [exact I|].
+    intros F0. induction fuel as [|fuel IH]; intros buf line s1 s2 acc R; [exact I|].
     cbn [u_columns].
-    assert (fill_rel (if line then FLine buf s1 else u_fill (fill_fuel s1) buf s1)
-                     (if line then FLine buf s2 else u_fill (fill_fuel s2) buf s2)) as F.
-    { destruct line; [split; [reflexivity|exact R]|].
-      rewrite (fill_fuel_rel s1 s2 R). apply u_fill_rel. exact R. }
-    destruct (if line then FLine buf s1 else u_fill (fill_fuel s1) buf s1) as [b1 t1|b1 t1|b1 t1|];
-      destruct (if line then FLine buf s2 else u_fill (fill_fuel s2) buf s2) as [b2 t2|b2 t2|b2 t2|];
+    assert (fill_rel (if line then FLine buf s1 else u_fill F0 buf s1)
+                     (if line then FLine buf s2 else u_fill F0 buf s2)) as F.
+    { destruct line; [split; [reflexivity|exact R]|]. apply u_fill_rel. exact R. }
+    destruct (if line then FLine buf s1 else u_fill F0 buf s1) as [b1 t1|b1 t1|b1 t1|];
+      destruct (if line then FLine buf s2 else u_fill F0 buf s2) as [b2 t2|b2 t2|b2 t2|];
       try contradiction; try exact I; destruct F as [<- R'].
     - destruct (u_matrix_column A parse_f32 b1); try reflexivity; try exact I;
         [apply IH; exact R'|repeat split; try reflexivity; apply R'|repeat split; try reflexivity; apply R'].
@@ -76,27 +72,25 @@ Section U.
   Ltac fin_rel := solve [cbn [fst snd]; split; [reflexivity|]; unfold urel, srel in *; cbn [ubuf uline ustream];
                          repeat split; try reflexivity; try tauto].
 
-  Lemma u_next_rel : forall buggy st1 st2, urel st1 st2 ->
-    snd (u_next A parse_f32 buggy st1) = snd (u_next A parse_f32 buggy st2) /\
-    urel (fst (u_next A parse_f32 buggy st1)) (fst (u_next A parse_f32 buggy st2)).
+  Lemma u_next_rel : forall F0 buggy st1 st2, urel st1 st2 ->
+    snd (u_next A parse_f32 F0 buggy st1) = snd (u_next A parse_f32 F0 buggy st2) /\
+    urel (fst (u_next A parse_f32 F0 buggy st1)) (fst (u_next A parse_f32 F0 buggy st2)).
   Proof.
-    intros buggy [buf line s1] [buf2 line2 s2] [Eb [El R]]. cbn [ubuf uline ustream] in *. subst buf2 line2.
+    intros F0 buggy [buf line s1] [buf2 line2 s2] [Eb [El R]]. cbn [ubuf uline ustream] in *. subst buf2 line2.
     unfold u_next. cbn [ubuf uline ustream].
-    assert (fill_rel (if line then FLine buf s1 else u_fill (fill_fuel s1) buf s1)
-                     (if line then FLine buf s2 else u_fill (fill_fuel s2) buf s2)) as F.
-    { destruct line; [split; [reflexivity|exact R]|].
-      rewrite (fill_fuel_rel s1 s2 R). apply u_fill_rel. exact R. }
-    destruct (if line then FLine buf s1 else u_fill (fill_fuel s1) buf s1) as [b1 t1|b1 t1|b1 t1|];
-      destruct (if line then FLine buf s2 else u_fill (fill_fuel s2) buf s2) as [b2 t2|b2 t2|b2 t2|];
+    assert (fill_rel (if line then FLine buf s1 else u_fill F0 buf s1)
+                     (if line then FLine buf s2 else u_fill F0 buf s2)) as F.
+    { destruct line; [split; [reflexivity|exact R]|]. apply u_fill_rel. exact R. }
+    destruct (if line then FLine buf s1 else u_fill F0 buf s1) as [b1 t1|b1 t1|b1 t1|];
+      destruct (if line then FLine buf s2 else u_fill F0 buf s2) as [b2 t2|b2 t2|b2 t2|];
       try contradiction.
     2,3: destruct F as [<- R']; fin_rel.
     2: fin_rel.
     destruct F as [<- R'].
     destruct (u_id b1) as [rest n id| | | |]; try fin_rel.
-    pose proof (u_columns_rel (cols_fuel t1) [] false t1 t2 [] R') as C.
-    rewrite <- (cols_fuel_rel t1 t2 R').
-    destruct (u_columns A parse_f32 (cols_fuel t1) [] false t1 []) as [c1 bb1 l1 u1|bb1 u1|k1|];
-      destruct (u_columns A parse_f32 (cols_fuel t1) [] false t2 []) as [c2 bb2 l2 u2|bb2 u2|k2|];
+    pose proof (u_columns_rel F0 F0 [] false t1 t2 [] R') as C.
+    destruct (u_columns A parse_f32 F0 F0 [] false t1 []) as [c1 bb1 l1 u1|bb1 u1|k1|];
+      destruct (u_columns A parse_f32 F0 F0 [] false t2 []) as [c2 bb2 l2 u2|bb2 u2|k2|];
       try contradiction.
     - destruct C as [<- [<- [<- R'']]].
       destruct (u_build_matrix A buggy c1) as [m|e|k|]; try fin_rel.
@@ -106,12 +100,12 @@ Section U.
     - fin_rel.
   Qed.
 
-  Lemma u_run_rel : forall buggy fuel stop st1 st2, urel st1 st2 ->
-    u_run A parse_f32 buggy fuel stop st1 = u_run A parse_f32 buggy fuel stop st2.
+  Lemma u_run_rel : forall F0 buggy fuel stop st1 st2, urel st1 st2 ->
+    u_run A parse_f32 F0 buggy fuel stop st1 = u_run A parse_f32 F0 buggy fuel stop st2.
   Proof.
-    induction fuel as [|fuel IH]; intros stop st1 st2 R; [reflexivity|].
-    cbn [u_run]. destruct (u_next_rel buggy st1 st2 R) as [Eo R'].
-    destruct (u_next A parse_f32 buggy st1) as [st1' o1]. destruct (u_next A parse_f32 buggy st2) as [st2' o2].
+    intros F0 buggy. induction fuel as [|fuel IH]; intros stop st1 st2 R; [reflexivity|].
+    cbn [u_run]. destruct (u_next_rel F0 buggy st1 st2 R) as [Eo R'].
+    destruct (u_next A parse_f32 F0 buggy st1) as [st1' o1]. destruct (u_next A parse_f32 F0 buggy st2) as [st2' o2].
     cbn [fst snd] in *. subst o2.
     destruct o1 as [[r|]|e|k|]; try reflexivity.
     - f_equal. apply IH. exact R'.
@@ -121,7 +115,8 @@ Section U.
   Theorem uniprobe_read_chunk : forall s1 s2, wf_stream s1 -> wf_stream s2 -> concat s1 = concat s2 ->
     uniprobe_read A parse_f32 s1 = uniprobe_read A parse_f32 s2.
   Proof.
-    intros s1 s2 H1 H2 E. unfold uniprobe_read, stream_bytes. rewrite E.
+    intros s1 s2 H1 H2 E. unfold uniprobe_read.
+    rewrite (read_fuel_rel s1 s2 (conj H1 (conj H2 E))).
     apply u_run_rel. unfold urel, u_new. cbn. repeat split; assumption.
   Qed.
 End U.
